@@ -13,7 +13,9 @@ MANIFEST_ENTRY = {
     "category": "proof",
     "text": "Lean 4 theorem C17_lr_prefix_sound (for every wf table, input, recognizer behaviour: whatever the LR "
             "model returns with consume_input off derives a prefix ending at a token boundary) + verified prefix "
-            "oracle; the LR model is run against Parser(consume_input=False); GLR forests are compared with the "
+            "oracle; C17_glr_model_prefix_sound: the same for the GLR driver model (a forest answer implies a sentence prefix, "
+            "for every wf table, input with idempotent layout skipping, fuel); the LR model is run against "
+            "Parser(consume_input=False) and the GLR model against GLRParser(consume_input=False); GLR forests are compared with the "
             "complete SPPF over all sentence prefixes computed by the Lean spec, and SyntaxError is allowed only "
             "when the verified oracle finds no sentence prefix",
     "note": "trusted: Lean kernel, LR/scanner models validated by correspondence, SPPF usefulness closure is "
@@ -24,7 +26,8 @@ MANIFEST_ENTRY = {
 
 PROP = "C17"
 LEVEL = "proof"
-THEOREMS = ["C17_lr_prefix_sound", "C17_prefix_oracle_correct", "C17_path_prefix_sound", "C17_reference_prefix_sppf_exact"]
+THEOREMS = ["C17_lr_prefix_sound", "C17_prefix_oracle_correct", "C17_path_prefix_sound", "C17_reference_prefix_sppf_exact",
+            "C17_glr_model_prefix_sound"]
 META = {
     "rule": "cases = (acyclic grammar, LR or GLR with lexical_disambiguation on/off, consume_input=False, input = "
             "sentence followed by arbitrary continuation); non-trivial = input with >= 2 sentence prefixes or a "
